@@ -58,9 +58,34 @@ def check(ctx) -> None:
         ctx.instance("C17-O1", "normalize_smiles: %s" % unparse(n)[:90], f.loc(n), ok=ok, reason=why)
         if not ok:
             ctx.finding("C17-O1", "chem_utils.normalize_smiles:sort-key", f.loc(n), "the canonical order of the molecules is not a total order: " + why)
-    # the sorted list is what gets joined
+    # the sorted list is what gets joined: the total order must be on the strings
+    # that end up in the normal form, not on something they are derived from
     joins = [n for n in own_nodes(f.node) if isinstance(n, ast.Call) and isinstance(n.func, ast.Attribute) and n.func.attr == "join"]
     ctx.require(joins, "normalize_smiles no longer joins components")
+    for n in sorts:
+        lst = None
+        if isinstance(n.func, ast.Attribute) and isinstance(n.func.value, ast.Name):
+            lst = n.func.value.id
+        elif isinstance(n.func, ast.Name):
+            par = getattr(n, "_parent", None)
+            if isinstance(par, ast.Assign) and isinstance(par.targets[0], ast.Name):
+                lst = par.targets[0].id
+        if lst is None:
+            continue
+        # elements of the sorted list must be the normalised components
+        normalised = False
+        for _, v, _i in assignments_to(f, lst):
+            if isinstance(v, ast.ListComp) and isinstance(v.elt, ast.Call) and getattr(v.elt.func, "id", "") == f.name:
+                normalised = True
+            if isinstance(v, ast.Call) and getattr(v.func, "id", "") == "sorted" and v.args and isinstance(v.args[0], ast.Name):
+                for _, v2, _j in assignments_to(f, v.args[0].id):
+                    if isinstance(v2, ast.ListComp) and isinstance(v2.elt, ast.Call) and getattr(v2.elt.func, "id", "") == f.name:
+                        normalised = True
+        joined_direct = any(j.args and isinstance(j.args[0], ast.Name) and j.args[0].id == lst for j in joins)
+        ok = normalised and joined_direct
+        ctx.instance("C17-O1", "the sorted list %r holds the normalised components and is joined as it is (normalised=%s, joined directly=%s)" % (lst, normalised, joined_direct), f.loc(n), ok=ok)
+        if not ok:
+            ctx.finding("C17-O1", "chem_utils.normalize_smiles:sorted-values", f.loc(n), "the list that is sorted (%r) is not the list of normalised components that is joined: the tie-break then looks at the input spelling instead of the normal form, and two spellings of one reaction can normalise differently" % lst)
     # -------------------------------------------------------------- O2
     w = prog.func(WC)
     cfg = CFG(w.node)
@@ -96,6 +121,21 @@ def check(ctx) -> None:
         ctx.instance("C17-O2", "the equality test dominates %d fingerprint call(s)" % len(fp_calls), w.loc(r), ok=okd)
         if not okd:
             ctx.finding("C17-O2", "chem_utils.wc_similarity:short-circuit-position", w.loc(r), "fingerprint code can run before the equal-normal-forms short-circuit")
+    # O3: the position-wise difference is collected symmetrically
+    ctx.rule("C17-O3", "the two difference lists of _get_diff_mol are filled by mirrored statements under the same guards", 1)
+    gd = prog.func("synrbl.SynUtils.chem_utils._get_diff_mol")
+    gcfg = CFG(gd.node)
+    apps = {}
+    for n in own_nodes(gd.node):
+        if isinstance(n, ast.Call) and isinstance(n.func, ast.Attribute) and n.func.attr == "append" and isinstance(n.func.value, ast.Name):
+            g = tuple(sorted("%s:%s" % (unparse(c), p) for c, p in gcfg.guards(gcfg.node_of(n))))
+            apps.setdefault(n.func.value.id, []).append(g)
+    lists = sorted(apps)
+    sym = len(lists) == 2 and sorted(apps[lists[0]]) == sorted(apps[lists[1]])
+    zipped = any(isinstance(n, ast.For) and isinstance(n.iter, ast.Call) and getattr(n.iter.func, "id", "") == "zip" and len(n.iter.args) == 2 for n in own_nodes(gd.node))
+    ctx.instance("C17-O3", "_get_diff_mol: appends to %s under guards %s; zip over both sides: %s" % (lists, [apps[k] for k in lists], zipped), gd.loc(), ok=sym and zipped)
+    if not (sym and zipped):
+        ctx.finding("C17-O3", "chem_utils._get_diff_mol:asymmetric", gd.loc(), "the molecules that differ are not collected symmetrically for the two arguments (appends %s; zip over both lists: %s): wc_similarity(a, b) and wc_similarity(b, a) then compare different molecule sets" % ({k: list(v) for k, v in apps.items()}, zipped))
     # benchmark normalises both sides with the same function
     bf = prog.func("synrbl.SynCmd.cmd_benchmark.run")
     n_norm = 0
